@@ -126,6 +126,7 @@ def _pack(rep, c):
         'solver_seconds': rep.solver_seconds,
         'canaries': rep.canaries,
         'canaries_refuted': rep.canaries_refuted,
+        'covers': getattr(rep, 'covers', {}),
         'unknown_branches': rep.unknown_branches,
         'source_hashes': getattr(rep, 'source_hashes', {}),
         'dropped_calls': getattr(rep, 'dropped_calls', 0),
@@ -256,6 +257,10 @@ def run_property(prop, modname, tier, level, title='', record_baseline=False):  
         if pk['canaries_refuted'] == 0:
             crashes.append((cname, 'canary not refuted: precondition is '
                             'contradictory or no path completed'))
+        for cv, n in pk.get('covers', {}).items():
+            if n == 0:
+                crashes.append((cname, f'cover {cv} never reached: the '
+                                'contract is vacuous'))
         if not pk['results'] and not pk['unsupported']:
             crashes.append((cname, 'zero obligations generated'))
         solver_s += pk['solver_seconds']
